@@ -410,6 +410,11 @@ func (r *reader) initNodes(tr io.Reader) error {
 							}
 							found = true
 							ent.NumLink = readNumLink(b)
+							// The attributes of the earlier entry (or of the implicitly
+							// created directory) must not leak into the new ones.
+							if err := resetAttr(b); err != nil {
+								return fmt.Errorf("failed to reset attr of %d(%q): %w", id, ent.Name, err)
+							}
 						}
 					}
 					if !found {
